@@ -259,11 +259,20 @@ def relpath_oracle(c, line, out):
     c.count("relpath:" + ("none" if rel == "" else "inside" if not rel.startswith("..") else "outside"))
     f = line.split(" ")
     basic = bytes.fromhex(f[2]).decode() if f[2] != "-" else ""
+    pkg = bytes.fromhex(f[1]).decode() if f[1] != "-" else ""
+    pkg = pkg.strip()
+    if pkg.endswith("/"):
+        pkg = pkg[:-1]
+    if pkg == "":
+        pkg = "github.com/VKCOM/tl/internal/tlcodegen/output/tl"
+    outdir_elems = pkg.split("/")[:-1]
     if rel.startswith(".."):
-        comps = [x for x in rel.split("/")]
+        comps = [x for x in rel.split("/") if x != ""]
         ups = 0
         while ups < len(comps) and comps[ups] == "..":
             ups += 1
-        rest = "/".join(comps[ups:])
-        if not rest.endswith("basictl/") or not (basic + "/").endswith(rest):
-            c.oracle_fail(line, "runtime library location outside the output directory is not a suffix of --basicPkgPath: " + rel, line)
+        rest = comps[ups:]
+        # going `ups` levels up from the output package and down `rest` must land exactly on --basicPkgPath
+        ne = lambda l: [x for x in l if x != ""]
+        if ups > len(outdir_elems) or ne(outdir_elems[:len(outdir_elems) - ups]) + rest != ne(basic.split("/")):
+            c.oracle_fail(line, "runtime library location outside the output directory does not resolve to --basicPkgPath: " + rel, line)
